@@ -58,6 +58,11 @@ def main():
                 known_seen[k["what"]] += 1
             else:
                 unknown.append(v)
+    for name, rep in reports:
+        drift = rep["coverage"].get("conformance_to_Scheduler_tla", {}).get("drift_count")
+        if drift:
+            common.say(f"MODEL-DRIFT: {drift} scheduler-visible histories of the real code are not behaviours of spec/Scheduler.tla "
+                       f"(information, not a verdict; the property-level verdict is unaffected)")
     for what in known_seen:
         common.say(f"KNOWN-FINDING: property={prop} {what}")
     seen_sig = set()
